@@ -48,7 +48,9 @@ func (b *builder) e(x TExpr) *builder {
 	b.sb.WriteString(x.Text)
 	return b
 }
-func (b *builder) done(desc string) TExpr { return TExpr{Text: b.sb.String(), Refs: b.refs, Desc: desc} }
+func (b *builder) done(desc string) TExpr {
+	return TExpr{Text: b.sb.String(), Refs: b.refs, Desc: desc}
+}
 
 func ref(text, addr string) TExpr {
 	return TExpr{Text: text, Refs: []Ref{{Addr: addr, Start: 0, End: len(text), Self: strings.HasPrefix(text, "self.")}}, Desc: "ref"}
@@ -135,6 +137,15 @@ func (g *exprGen) Gen(typ string, depth int, wide bool) []TExpr {
 				new(builder).s("[\n  ").e(subRef()).s(",\n  ").e(subRef()).s(",\n]").done("tuple-cons-multiline"),
 				new(builder).s(`vf(`).e(subRef()).s(`, `).e(subRef()).s(`, `).e(subRef()).s(`)`).done("variadic-call"),
 				func() TExpr {
+					// the same address written twice: two references, two origins
+					r := subRef()
+					return new(builder).s(`[`).e(r).s(`, `).e(subRef()).s(`, `).e(r).s(`]`).done("repeated-reference")
+				}(),
+				func() TExpr {
+					r := subRef()
+					return new(builder).s(`[for x in [`).e(r).s(`, `).e(subRef()).s(`, `).e(r).s(`] : "c"]`).done("for-over-repeated-references")
+				}(),
+				func() TExpr {
 					it := TExpr{Text: "v", Refs: []Ref{{Addr: "v", Start: 0, End: 1, Iterator: true}}}
 					return new(builder).s(`[for v in `).e(subRef()).s(` : `).e(it).s(` if `).e(it).s(` != `).e(subRef()).s(`]`).done("for-list")
 				}(),
@@ -146,6 +157,15 @@ func (g *exprGen) Gen(typ string, depth int, wide bool) []TExpr {
 			out = append(out,
 				new(builder).s(`{ k = `).e(sub("string")).s(`, l = `).e(subRef()).s(` }`).done("object-cons"),
 				new(builder).s(`{ (`).e(subRef()).s(`) = `).e(subRef()).s(` }`).done("parenthesised-key"),
+				func() TExpr {
+					r := subRef()
+					return new(builder).s(`{ k = `).e(r).s(`, l = `).e(r).s(` }`).done("repeated-reference-in-object")
+				}(),
+				func() TExpr {
+					r := subRef()
+					k := TExpr{Text: "k", Refs: []Ref{{Addr: "k", Start: 0, End: 1, Iterator: true}}}
+					return new(builder).s(`{for k, v in { one = `).e(r).s(`, two = `).e(r).s(` } : `).e(k).s(` => "c"}`).done("for-over-repeated-object")
+				}(),
 				new(builder).s("{\n  k = ").e(subRef()).s("\n  \"q\" = ").e(subRef()).s("\n}").done("object-cons-multiline"),
 				func() TExpr {
 					k := TExpr{Text: "k", Refs: []Ref{{Addr: "k", Start: 0, End: 1, Iterator: true}}}
